@@ -108,7 +108,14 @@ func (mergeEngine) Gen(t *rapid.T, tier string) any {
 			reqN[sub]++
 			nReq++
 		case k <= 5: // CLOSE
-			sub := rapid.SampledFrom([]string{"a", "b", "s1", "s2"}).Draw(t, "csub")
+			csubs := []string{"a", "b", "s1", "s2"}
+			for q := 0; q < nCnt; q++ { // REQ and COUNT share the subscription-id namespace
+				csubs = append(csubs, fmt.Sprintf("q%d", q), fmt.Sprintf("q%d", q))
+			}
+			if c.RepeatID && nCnt > 0 {
+				csubs = append(csubs, "p", "q")
+			}
+			sub := rapid.SampledFrom(csubs).Draw(t, "csub")
 			if open[sub] && rapid.IntRange(0, 1).Draw(t, "closewait") == 0 {
 				eoseN[sub]++
 				c.Script = append(c.Script, simrt.Op{Kind: "awaitkey", Key: "EOSE:" + sub, N: eoseN[sub]})
